@@ -46,7 +46,7 @@ PATTERNS = [
 ALLOW = [
     ("src/differentiation/record_operations.rs", "pointer value", r"std::ptr::eq\(list_a, list_b\)"),
     ("src/verif_hooks.rs", None, r".*"),          # feature-gated verification hook module
-    (None, "pointer value", r"cfg\(feature = \"verif-hooks\"\)|verif_hooks::|as_ptr\(\) as usize"),
+    (None, "pointer value", r"cfg\(feature = \"verif-hooks\"\)|verif_hooks::"),
 ]
 
 
